@@ -4,6 +4,7 @@ import (
 	"bytes"
 	"context"
 	"fmt"
+	"strings"
 	"sync"
 	"testing"
 	"time"
@@ -408,3 +409,90 @@ func FuzzC13(f *testing.F) {
 		}
 	})
 }
+
+// ---- C13 twins: calls that start at the same instant, then the connection closes ------------------------------
+
+// C13Twins: 2..6 calls (unary and streaming) pass the point where a call takes its id within nanoseconds of each other
+// (spin barrier at the verif hook points); the scripted peer answers the ids it saw with a reply or nothing; then the
+// connection is closed. "Once the connection is closed every call it issued has terminated with a result or an error."
+type C13Twins struct {
+	Kinds  []int `json:"kinds"`
+	Answer bool  `json:"answer"` // the peer answers every id it saw once (unary reply / trailer) before the close
+	Ser    bool  `json:"ser"`
+	Rounds int   `json:"rounds"`
+}
+
+func genC13Twins(t *rapid.T) C13Twins {
+	return C13Twins{Kinds: rapid.SliceOfN(rapid.SampledFrom([]int{kit.KindUnary, kit.KindBidi}), 2, 6).Draw(t, "kinds"), Answer: rapid.Bool().Draw(t, "answer"), Ser: rapid.Bool().Draw(t, "ser"), Rounds: rapid.IntRange(1, 4).Draw(t, "rounds")}
+}
+
+func execC13Twins(t *testing.T, c C13Twins) (v Verdict) {
+	n := len(c.Kinds)
+	for r := 0; r < c.Rounds && v.Fail == ""; r++ {
+		done := make([]bool, n)
+		var mu sync.Mutex
+		res := kit.Bubble(t, func() {
+			defer spinBarrier([]string{"mux.unary.beforeRegister", "mux.stream.beforeRegister"}, n, n)()
+			l := kit.NewLink("c0", kit.NewTap(), c.Ser)
+			cc := goat.NewClientConn(l.A, "c0", kit.ServerName)
+			bg := context.Background()
+			for i, k := range c.Kinds {
+				i, k := i, k
+				go func() {
+					defer func() {
+						mu.Lock()
+						done[i] = true
+						mu.Unlock()
+					}()
+					if k == kit.KindUnary {
+						_, _ = kit.Invoke(bg, cc, "u", []byte{byte(i)})
+						return
+					}
+					cs, err := cc.NewStream(bg, kit.StreamDescFor(kit.KindBidi), kit.FullMethod("s"))
+					if err != nil {
+						return
+					}
+					for {
+						if _, err := kit.RecvBytes(cs); err != nil {
+							return
+						}
+					}
+				}()
+			}
+			kit.Settle()
+			if c.Answer {
+				seen := map[uint64]bool{}
+				for _, rq := range l.B.ReadAvailable() {
+					if seen[rq.GetId()] {
+						continue
+					}
+					seen[rq.GetId()] = true
+					e := kit.EnvSpec{Status: &kit.StatusSpec{Code: 0, Msg: "OK"}, Trailer: true}
+					if rq.GetBody() != nil {
+						e = kit.EnvSpec{Body: &kit.Payload{Class: "lit", Lit: []byte("r")}, Wrap: true, Trailer: true}
+					}
+					_ = l.B.Write(bg, e.Build(rq.GetId(), rq.GetHeader().GetMethod(), kit.ServerName, "c0"))
+				}
+				kit.Settle()
+			}
+			l.Close()
+			cc.Close()
+			kit.Settle()
+		})
+		if res.Panic != nil && !strings.Contains(fmt.Sprint(res.Panic), "deadlock") {
+			v.failf("panic: %v\n%s", res.Panic, res.Stack)
+		}
+		mu.Lock()
+		for i, d := range done {
+			if !d {
+				v.failf("call %d (%s), one of %d started at the same instant, has not terminated although the connection was closed (round %d)", i, kit.KindNames[c.Kinds[i]], n, r)
+				break
+			}
+		}
+		mu.Unlock()
+	}
+	v.Info = kit.CaseInfo{Labels: []string{"twins", fmt.Sprintf("twins.calls=%d", n)}, NonTrivial: true, Key: fmt.Sprintf("%+v", c), Sample: c}
+	return
+}
+
+func TestC13Twins(t *testing.T) { checkProp(t, "C13", "twins", genC13Twins, execC13Twins) }
